@@ -49,16 +49,24 @@ func init() {
 	})
 }
 
+// c09Clone copies the exported fields. The scope slice is copied WITH its spare capacity and the
+// maps that still sit behind its length (scopes dropped by Reset/Pop): an implementation that reuses
+// them would otherwise look correct only because the clone threw them away.
 func c09Clone(c *cache.Cache) *cache.Cache {
 	n := &cache.Cache{CacheSize: c.CacheSize, CacheUseSize: c.CacheUseSize, LastValue: c.LastValue}
-	n.Cache = make([]map[string]string, len(c.Cache))
-	for i, m := range c.Cache {
+	full := c.Cache[:cap(c.Cache)]
+	nf := make([]map[string]string, len(full))
+	for i, m := range full {
+		if m == nil {
+			continue
+		}
 		nm := make(map[string]string, len(m))
 		for k, v := range m {
 			nm[k] = v
 		}
-		n.Cache[i] = nm
+		nf[i] = nm
 	}
+	n.Cache = nf[:len(c.Cache)]
 	n.Sizes = make(map[string]uint16, len(c.Sizes))
 	for k, v := range c.Sizes {
 		n.Sizes[k] = v
@@ -97,6 +105,9 @@ func c09Key(c *cache.Cache) string {
 	for _, k := range ks {
 		fmt.Fprintf(&sb, "%s:%d,", k, c.Sizes[k])
 	}
+	// Dropped scopes that still sit behind the slice's length are NOT part of the key (including them
+	// multiplies the graph by 20 and no longer reaches a fixpoint), but c09Clone preserves them, so the
+	// representative of every state carries the hidden maps of the path that first reached it.
 	return sb.String()
 }
 
